@@ -1,9 +1,11 @@
 import CvssVerif.Proofs.Decoders
+import CvssVerif.Props.SrcTab
 import CvssVerif.Proofs.Agree3
 import CvssVerif.Props.C07
 import CvssVerif.Props.C08
 import CvssVerif.Props.C10
 import CvssVerif.Props.C11
+import CvssVerif.Props.C09
 /-
   The tie by translation of the decoders, encoders and validity checks: what `Generated/Decoders.lean` (rewritten from
   the source text of /repo/v3/metric and /repo/v2/metric on every run by go/decoders) computes is what the model
@@ -263,6 +265,71 @@ theorem encode_of_accepted_source (s : Bytes) :
     have he : (V3.decode .environmental V3.Obj3.new s).2 = none := by
       have := congrArg (fun r => r.map (fun x => x.2.2)) h; simpa using this
     rw [Environmental_Encode_3, C10.encode3_canonical (L := .environmental) (s := s) (o := o) (by rw [← ho, ← he])]
+
+/-- **Transfer.** What the translated `NewEnvironmental().Decode(s)` (v3) and the three translated v2 `NewX().Decode(s)` answer is exactly
+    what the model's `decode L new s` answers, object included: every theorem of C07–C14 with a hypothesis `decode L new s = (o, e)` is, by
+    this, a theorem about the translated source. -/
+theorem decode_source_iff (s : Bytes) :
+    (∀ o e, Gen.D3.Environmental_Decode Gen.D3.NewEnvironmental s = some (o, (e.isNone, e)) ↔ V3.decode .environmental V3.Obj3.new s = (o, e)) ∧
+    (∀ o e, Gen.D2.Base_Decode Gen.D2.NewBase s = some (o, (e.isNone, e)) ↔ V2.decode .base V2.Obj2.new s = (o, e)) ∧
+    (∀ o e, Gen.D2.Temporal_Decode Gen.D2.NewTemporal s = some (o, (e.isNone, e)) ↔ V2.decode .temporal V2.Obj2.new s = (o, e)) ∧
+    (∀ o e, Gen.D2.Environmental_Decode Gen.D2.NewEnvironmental s = some (o, (e.isNone, e)) ↔ V2.decode .environmental V2.Obj2.new s = (o, e)) := by
+  refine ⟨?_, ?_, ?_, ?_⟩
+  · intro o e
+    rw [Environmental_Decode_3, newEnv3_eq]
+    constructor
+    · intro h
+      have h1 := congrArg (fun r => r.map (fun x => x.1)) h
+      have h2 := congrArg (fun r => r.map (fun x => x.2.2)) h
+      simp only [Option.map_some, Option.some.injEq] at h1 h2
+      exact Prod.ext h1 h2
+    · intro h; rw [h]
+  · intro o e
+    rw [Base_Decode_2, new2_eq.2.2]
+    constructor
+    · intro h
+      have h1 := congrArg (fun r => r.map (fun x => x.1)) h
+      have h2 := congrArg (fun r => r.map (fun x => x.2.2)) h
+      simp only [Option.map_some, Option.some.injEq] at h1 h2
+      exact Prod.ext h1 h2
+    · intro h; rw [h]
+  · intro o e
+    rw [Temporal_Decode_2, new2_eq.2.1]
+    constructor
+    · intro h
+      have h1 := congrArg (fun r => r.map (fun x => x.1)) h
+      have h2 := congrArg (fun r => r.map (fun x => x.2.2)) h
+      simp only [Option.map_some, Option.some.injEq] at h1 h2
+      exact Prod.ext h1 h2
+    · intro h; rw [h]
+  · intro o e
+    rw [Environmental_Decode_2, new2_eq.1]
+    constructor
+    · intro h
+      have h1 := congrArg (fun r => r.map (fun x => x.1)) h
+      have h2 := congrArg (fun r => r.map (fun x => x.2.2)) h
+      simp only [Option.map_some, Option.some.injEq] at h1 h2
+      exact Prod.ext h1 h2
+    · intro h; rw [h]
+
+/-- **C09 carried to the source text** (v3 environmental decoder): after the translated decoder accepted `s`, the version label is the
+    written one and every metric field holds the value whose code is the written one — Not Defined for an unwritten optional metric —
+    and the translated `String()` of the field's type prints that code -/
+theorem v3_fields_source (s : Bytes) (o : V3.Obj3)
+    (h : Gen.D3.Environmental_Decode Gen.D3.NewEnvironmental s = some (o, (true, none))) :
+    Gen.T3.Version_String o.ver = Spec3.label s ∧
+    ∀ m ∈ V3.msOf .environmental, (o.field m, Spec3.expectedCode (V3.specOf m) s) ∈ m.spec.codes ∧
+      SrcTab.srcStr3 m (o.field m) = Spec3.expectedCode (V3.specOf m) s := by
+  have hd := ((decode_source_iff s).1 o none).mp h
+  have hf := C09.decode3_fields hd
+  refine ⟨by rw [TableTie.Version_String_3]; exact hf.1, fun m hm => ⟨hf.2 m hm, ?_⟩⟩
+  rw [SrcTab.v3_string_is_source]
+  exact C09.decode3_field_codes hd m hm
+
+/-- non-vacuity of the transfer: an accepted and a rejected string -/
+example : (V3.decode .environmental V3.Obj3.new b!"CVSS:3.1/AV:N/AC:L/PR:N/UI:N/S:U/C:H/I:H/A:H/E:F").2 = none ∧
+    (V2.decode .base V2.Obj2.new b!"AV:N/AC:L/Au:N/C:P/I:P").2 = some .noBaseMetrics := by
+  constructor <;> decide
 
 /-- the obligation under which the three string-keyed `names` maps of the source are the model's metric-keyed `named` -/
 theorem names_abstraction_ok :
